@@ -120,7 +120,7 @@ def gen_pipeline_cases(ctx):
                 yield {'part': 'pipeline', 'kinds': list(kinds),
                        'data': {'value': idx % 5, 'x': 'y'}, 'as': ('list', 'tuple', 'single')[idx % 3],
                        'cond': (None, 'tf', 'tn', 'nf')[(idx // 3) % 4], 'enum': True}
-    for _ in range(150 if ctx.tier == 'quick' else 40000):
+    for _ in range(450 if ctx.tier == 'quick' else 40000):
         kinds = [rng.choice(FKINDS) for _ in range(3)]
         data = {k: rng.choice([0, 1, None, 'v', (1,)]) for k in rng.sample(
             ['value', 'previous', 'x', 'extra', 'trigger'], rng.randrange(0, 5))}
@@ -316,7 +316,7 @@ def run_edge(case, ctx):
 
 def delta_cases(ctx):
     rng = ctx.rng('delta')
-    for _ in range(60 if ctx.tier == 'quick' else 30000):
+    for _ in range(180 if ctx.tier == 'quick' else 30000):
         floats = rng.random() < 0.5
         delta = rng.choice([0, 1, 2, 5, 0.5, 2.5, 0.1]) if floats else rng.choice([0, 1, 2, 3, 10])
         walk = []
@@ -526,7 +526,7 @@ def run_dataedit(case, ctx):
 # ---------------- IfOutput / NotIfInitialized / add_output inside a simulation ----------------
 def ctrl_cases(ctx):
     rng = ctx.rng('ctrl')
-    for _ in range(40 if ctx.tier == 'quick' else 600):
+    for _ in range(100 if ctx.tier == 'quick' else 600):
         yield {'part': 'ctrl', 'vals': [rng.choice([0, 1, '', 'on', None, 2, [], [0], {}, {'value': -1},
                                                     {'k': 'x', 'source': 'cfg'}])
                                         for _ in range(rng.randrange(2, 9))],
